@@ -617,7 +617,11 @@ func (k *wk) deepWalk(r *pdf.Reader, refs []pdf.Reference, full bool) {
 				rd.TextEvent = func(reader.TextEvent, float64) {}
 				rd.EveryOp = func(op string, args []pdf.Object) error { return nil }
 				rd.XObject = func(obj graphics.XObject, ctm matrix.Matrix) error { return nil }
-				rd.InlineImage = func(op content.Operator, ctm matrix.Matrix) error { return nil }
+				rd.InlineImage = func(op content.Operator, ctm matrix.Matrix) error {
+					// the image data is decoded as a consumer would do it
+					_, _ = content.DecodeInlineImage(op, dec.Resources)
+					return nil
+				}
 				rd.MarkedContent = func(reader.MarkedContentEvent, *graphics.MarkedContent) error { return nil }
 				rd.ActualText = func(reader.ActualTextEvent, string) error { return nil }
 				return nil, rd.ProcessPage(dec)
